@@ -1,13 +1,16 @@
 PROP = dict(
-    drivers=['Loaders', 'FontLoad'],
-    gens=['xb', 'loaders', 'fontpal', 'palette'],
-    lake=['IcyVerif.Props.C02'],
+    drivers=['Loaders', 'FontLoad', 'TextLoad'],
+    gens=['xb', 'loaders', 'fontpal', 'palette', 'textload', 'sixel'],
+    lake=['IcyVerif.Props.C02', 'IcyVerif.Props.C02Text'],
     ns='IcyVerif.C02',
     theorems=['xb_total', 'bin_total', 'adf_total', 'idf_total', 'tnd_total', 'tdf_total', 'clipboard_total',
               'clipboard_total_checked', 'icy_chunk_total', 'icy_chunk_total_checked', 'icy_chunk_sites', 'dispatch_total',
               'dispatch_len_le', 'sauce_length_total', 'from_bytes_total', 'glyph_guard_present', 'bitfont_total',
               'bitfont_needs_zero_guard', 'palette_import_total', 'palette_import_ext_total', 'palette_number_overflow_is_err', 'palette_conversions_pinned',
-              'loader_sites_known', 'loader_sites_complete'],
+              'loader_sites_known', 'loader_sites_complete',
+              'text_row_clamps_present', 'file_stream_no_panic', 'file_stream_wrapped_no_panic', 'file_stream_bytes_no_panic',
+              'file_stream_reachable', 'hyperlink_length_no_overflow', 'text_parse_total', 'text_finish_total', 'text_loader_total',
+              'text_extensions_covered', 'text_row_sites_known', 'crop_constant_pinned', 'bitfont_size_nonzero', 'dl_closed_form_is_the_loop'],
     harness='c02',
     harness_timeout=3000,
     design='DESIGN.md §4 C02',
@@ -25,7 +28,17 @@ PROP = dict(
               'them the translator additionally regenerates a SITE INVENTORY (every line of the loader functions holding an index, '
               'slice, unwrap, allocation from a number, arithmetic, cast, todo!) that must be covered by the table of sites the '
               'model accounts for (loader_sites_known), the variant flag glyphZeroGuard from which bitfont_total is proved, the '
-              'flag palConversionsChecked, and the Unicode class behind the regex crate\'s \\d.',
+              'flag palConversionsChecked, and the Unicode class behind the regex crate\'s \\d. TEXT FORMATS (ans ice diz pcb avt asc msg an1-9 '
+              'seq ata + the ANSI fallback): Model/TermFile (+Wrap, +Other) is the terminal model of C01 re-done for a FILE buffer '
+              '(is_terminal_buffer = false: row clamp 0..=MAX_FILE_BUFFER_HEIGHT-1 instead of a screen, lf / print_char grow the row table, '
+              'get_last_editable_line reads it) with the ROW TABLE (chars.len() of every row of layer 0) as state and every plain i32 '
+              '+1 / * on a cursor row as an explicit check (no conservative guard); Model/TextLoad is Buffer::from_bytes -> load_buffer '
+              '-> parse_with_parser (BOM / UTF-8, errors skipped, sixel join via the C14 model, crop_loaded_file) and the seq / atascii byte '
+              'loops. text_loader_total: for ALL byte strings, extensions, oracle values, sixel results: never a panic — by the state '
+              'invariant FGood (induction over the text and over macro nesting). The translator (gens/textload.py) regenerates the row bound, '
+              'the VARIANT FLAGS limitRowClamped / lfClamped (the proofs go through `= true`, so a tree without the clamps breaks them), the '
+              'loader table, the BOM prefix, and an inventory of every plain +1 / -1 / * on a cursor row in the functions a file load reaches '
+              '(text_row_sites_known).',
     rule='cases: files written by the engine\'s own writers for 11 small buffers x 14 formats x (SAUCE, compression) variants; every '
          'truncation of the small ones and boundary/sampled truncations of the 4 KiB ones (all in thorough); single- and multi-byte '
          'corruptions; every header field set to 0,1,0x7f,0x80,0xff,0xffff,0xffffffff,all-ones,sign bit; hand-made XBin/BIN/ADF/IDF/'
@@ -41,7 +54,17 @@ PROP = dict(
          'Unicode blanks and digits, non-UTF-8 and cut multi-byte sequences, overlong lines, many lines, random token soup, every '
          'extension incl. unknown and none; clipboard layers '
          'incl. width*height overflow; IcyDraw chunk payloads (real ones re-packed into a minimal PNG, truncated/corrupted/reordered, '
-         'synthetic ones with field extremes, continuation chunks for unseen layers). distinct_nontrivial = distinct case strings. '
+         'synthetic ones with field extremes, continuation chunks for unseen layers). TEXT LOADERS: every engine-written / truncated / '
+         'corrupted text file above now goes through the text model (whole-file result ok bw bh lw lh rows rowsHash layers{offset size} | err, '
+         'and - for texts up to 3000 characters - the per-character digest of a REPLICA of load_buffer stepped by the harness: cursor, sizes, '
+         'margins, modes, tab stops, row count, row lengths of the caret / first / last row per character and of all rows every 32 characters, '
+         'queued sixels, closed hyperlinks + their lengths); seeded grammar streams of C01 plus file-specific tokens (far rows up to 2^31, '
+         'hyperlinks across rows, IL DL ICH DCH ECH ED EL SU SD SL SR, rectangles, insert mode, sixels + clear screen, REP) character by '
+         'character on FILE buffers for ansi (4 music / BS configurations), avatar, pcboard, ctrla, renegade, ascii, atascii, petscii on sizes '
+         '1x1 .. 1000x300 incl. height 0 and 65535, created 80x25 and resized (stale tab stops) or with the 40x25 / 40x24 rows kept; exhaustive '
+         'pairs (triples in thorough) over the control alphabets of atascii petscii ascii avatar ctrla; whole files under all 18 text extensions + '
+         'unknown ones + upper case with SAUCE widths 1 / 80 / 132 / 1000 / 1001 / 0 / 4096 / 65535 and heights 0..300, BOM + UTF-8 (also damaged), '
+         'trailing empty rows, sixel sequences; the inputs that crashed the pinned tree. distinct_nontrivial = distinct case strings. '
          'Request lines longer than 1500 characters are sub-sampled (1/4 quick, 1/16 thorough) for the model run only.',
     modelled='Buffer::from_bytes (extension match incl. case folding and ANSI fallback, len -= sauce_header_len, &bytes[..len]), the '
              'length/size part of SauceData::extract (both spellings of len-1 and of the comment-block check), Buffer::set_sauce '
@@ -54,10 +77,21 @@ PROP = dict(
              'consistency arithmetic) + load_plain_font + glyphs_from_u8_data (loop on fuel, exhaustion = divergence) + the loop bound of '
              'calculate_checksum, Palette::load_palette for Hex/Pal/Gpl/Ice/Txt (String::from_utf8, str::lines, the five colour regexes as '
              'matchers - \\d as Unicode Nd, parse::<u32>()? and from_str_radix(_,16)? as explicit Err, as u8) + import_palette extension '
-             'dispatch',
+             'dispatch; TEXT LOADERS: load_buffer of ansi / pcboard / avatar / ascii / ctrla / renegade / seq / atascii (initial size, set_sauce '
+             'resize incl. the tab stops it leaves stale, parser configuration), convert_ansi_to_utf8 (BOM + from_utf8 on the C10 UTF-8 model), '
+             'parse_with_parser (lines.clear, character loop with skip_errors, sixel join loop + image layers through the C14 models, '
+             'crop_loaded_file incl. the maximum over the image layers; the bold pass has no geometry), and on a FILE buffer: limit_caret_pos, '
+             'Caret::lf / ff / bs / del / ins / erase_charcter / left / right / up / down / index / reverse_index / next_line, Buffer::print_char '
+             '(insert mode, layer height growth, wrap at the layer width), scroll_up/down/left/right, clear_screen, clear_buffer_down/up, clear_line*, '
+             'insert/remove_terminal_line, get_rect_area + the three rectangle commands, Layer::set_char / insert_line, Line::set_char / insert_char as '
+             'effects on the row table; the whole control flow of the ANSI parser (as in C01) incl. parse_osc with the hyperlink stack and its length '
+             'arithmetic, execute_dcs queueing sixel decodes; Avatar / PCBoard / Ctrl-A / Renegade / ASCII / ATASCII / PETSCII (incl. update_shift_mode) on a file buffer',
     not_modelled='ORACLE ONLY (no model, the harness only checks no panic/abort/hang): the .icy PNG/zlib/base64 container (png, '
-                 'base64 crates; whole-file .icy inputs), the stream parsers behind ans/ice/diz/pcb/avt/asc/msg/an1-9/seq/ata and '
-                 'unknown extensions (TermGeo, C01) incl. parse_with_parser, the glyph CONTENT of bitmap fonts (HashMap insertion, CRC value: '
+                 'base64 crates; whole-file .icy inputs), in the text loaders: cell CONTENTS (colours, attributes, glyphs; Line::get_line_length for HPA / HPR is an '
+                 'oracle value observed before each top-level character), what OSC 4 / CTerm:Font / font selection do beyond Ok / Err (oracle value), the '
+                 'sixel decoder itself (C14 model; payload numbers of 5+ digits are oracle-only), ANSI music states (off in every loader: the theorems '
+                 'assume musicOpt = 0; the per-character correspondence also runs the three music-on configurations), `n - 1` on parsed numbers '
+                 '(>= 0 by parse_next_number), Viewdata / Mode 7 on a file buffer (no file format runs them), the glyph CONTENT of bitmap fonts (HashMap insertion, CRC value: '
                  'C17; the C02 font model keeps size, declared length, glyph count and loop counters; in the XBin/ADF/IDF models the font '
                  'block is only a bounds-checked slice of exactly height*256 bytes), base64 / slot parsing of the CTerm:Font DCS (C17; '
                  'the harness encodes the payload itself), '
@@ -74,7 +108,10 @@ PROP = dict(
                  'creates Normal and Image layers - reflected in the model, where role is 0 or 1); Buffer::from_bytes with a file '
                  'name WITHOUT extension panics on extension().unwrap(): the property quantifies over extensions, the harness '
                  'always supplies one (observation, not a finding).',
-    assumptions=['bytes are read mod 256; usize arithmetic is unbounded Nat (no overflow below 2^64 since offsets <= len + 2^33)',
+    assumptions=['text loaders: font 0 has a non-zero width and height when sixel layers are created (hypothesis of text_finish_total / '
+                 'text_loader_total; BitFont loaders reject zero sizes: PSF2 charsize check, glyphZeroGuard); lines.len() < 2^31 (at most 65535 rows '
+                 'after the clamps); the oracle value of HPA / HPR executed inside a macro replay is the one observed before the invoking character',
+                 'bytes are read mod 256; usize arithmetic is unbounded Nat (no overflow below 2^64 since offsets <= len + 2^33)',
                  'BitFont::create_8/from_basic on a slice of exactly height*256 bytes (height >= 1) and guess_font_name do not panic '
                  '(owned by C10/C17; exercised by the oracle on every XBin/ADF/IDF case)',
                  'dateOk (result of chrono NaiveDateTime::parse_from_str inside SauceData::extract) and the outcome of '
